@@ -43,6 +43,7 @@ struct CallCtx {
   bool fault_fired = false;
 };
 
+struct scope_abort {};   // thrown by the 'unwind' operation through the frames that own scoped expectations
 struct RecTracer;
 struct StreamRec;
 
@@ -106,6 +107,10 @@ class ExecImpl : public ClauseSink {
   void release_exp(int id);
   std::vector<XRep> release_model(int id);
   void op_end_scope(const Op&);
+  void op_unwind(const Op&);
+  void op_assign_seq(const Op&);
+  size_t unwind_resume = 0;   // where the plan continues after an exception has left all open scopes
+  int open_scopes = 0;
   void op_abandon(const Op&);
   void op_call(const Op&);
   void op_q_sat(const Op&);
@@ -141,6 +146,8 @@ class ExecImpl : public ClauseSink {
   void clause_point() override;
   void clause_point(CallCtx& c);
   void install_reporter();
+  const Op* reporter_op = nullptr;   // an operation the reporter itself performs when the next non-fatal report arrives (re-entrancy fault)
+  void on_report(bool fatal);
 };
 
 extern thread_local ExecImpl* g_cur;
